@@ -9,22 +9,6 @@ sender used.  Initial headers with ANY token length (1-, 2-, 4-, 8-byte length v
 namespace GmQuic.Protect
 open GmQuic.Wire GmQuic.Pn GmQuic.Codec
 
-/-- the packet types `PacketWriter` protects -/
-def ptypeOfHeader : Header → Option PType
-  | .initial .. => some .initial
-  | .zeroRtt .. => some .zeroRtt
-  | .handshake .. => some .handshake
-  | .oneRtt .. => some .oneRtt
-  | _ => none
-
-/-- what `PacketWriter::new_{long,short}(header, …)` starts from: `put_header` wrote `encHeader h` -/
-def txOfHeader (h : Header) (ty : PType) (pn : Nat) (enc : PacketNumber) (kp : Bool) (body : Bytes) : TxPkt :=
-  ⟨ty, (encHeader h).headD 0, (encHeader h).tail, pn, enc, kp, body⟩
-
-theorem encHeader_cons (h : Header) (ty : PType) (hty : ptypeOfHeader h = some ty) :
-    encHeader h = (encHeader h).headD 0 :: (encHeader h).tail := by
-  cases h <;> simp [ptypeOfHeader] at hty <;> simp [encHeader, Header.type, encPType]
-
 /-- **wf_of_header**: `WfHdr` is not an assumption for headers written by `put_header`. -/
 theorem wf_of_header (h : Header) (ty : PType) (pn : Nat) (enc : PacketNumber) (kp : Bool) (body : Bytes)
     (hty : ptypeOfHeader h = some ty) : WfHdr (txOfHeader h ty pn enc kp body) := by
@@ -58,31 +42,6 @@ end GmQuic.Protect
 
 namespace GmQuic.Protect
 open GmQuic.Wire GmQuic.Pn GmQuic.Codec
-
-theorem and_of_sub (a b C D : UInt8) (hD : C &&& D = D) (h : a &&& C = b &&& C) : a &&& D = b &&& D := by
-  rw [← and_sub a C D hD, ← and_sub b C D hD, h]
-
-/-- the bits `be_packet_type` reads are the same in the protected first byte and in what `put_header` wrote -/
-theorem protected_first_bits (t : TxPkt) (w : WfHdr t) (f x : UInt8)
-    (hf : f ^^^ (x &&& hpBits f) = encodeFirst t) :
-    f &&& 0x80 = t.hdr0 &&& 0x80 ∧ f &&& 0x20 = t.hdr0 &&& 0x20 ∧
-    (t.hdr0 &&& 0x80 = 0x80 → f &&& 0x40 = t.hdr0 &&& 0x40 ∧ f &&& 0x30 = t.hdr0 &&& 0x30) := by
-  have g_e0 : encodeFirst t &&& 0xe0 = t.hdr0 &&& 0xe0 := by
-    rw [encodeFirst_eq]; exact or_high _ _ _ (lowBits_and_e0 t)
-  have f_e0 : f &&& 0xe0 = encodeFirst t &&& 0xe0 := by
-    rw [← hf]; exact (xor_masked_and f x _ _ (hpBits_and_e0 f)).symm
-  have e0 : f &&& 0xe0 = t.hdr0 &&& 0xe0 := f_e0.trans g_e0
-  have h80 := and_of_sub _ _ 0xe0 0x80 (by decide) e0
-  refine ⟨h80, and_of_sub _ _ 0xe0 0x20 (by decide) e0, ?_⟩
-  intro hl
-  have hlong : t.ptype ≠ .oneRtt := fun hs => by
-    have := (wf_short w).mp hs; rw [hl] at this; exact absurd this (by decide)
-  have g_f0 : encodeFirst t &&& 0xf0 = t.hdr0 &&& 0xf0 := by
-    rw [encodeFirst_eq]; exact or_high _ _ _ (lowBits_long_f0 t hlong)
-  have f_f0 : f &&& 0xf0 = encodeFirst t &&& 0xf0 := by
-    rw [← hf]; exact (unmask_and_f0 f x (by rw [h80, hl])).symm
-  have f0 := f_f0.trans g_f0
-  exact ⟨and_of_sub _ _ 0xf0 0x40 (by decide) f0, and_of_sub _ _ 0xf0 0x30 (by decide) f0⟩
 
 /-- **header_parsed_from_protected**: `be_packet_type` + `be_header` run on the PROTECTED packet return exactly the
 header the sender wrote and stop at the declared header size; the payload offset is that size plus the Length field.
